@@ -10,6 +10,7 @@ import (
 	"github.com/moorara/algo/grammar"
 	"github.com/moorara/algo/parser/lr"
 
+	ebnfast "github.com/gardenbed/emerge/internal/ebnf/parser/ast"
 	"github.com/gardenbed/emerge/internal/ebnf/parser/spec"
 )
 
@@ -131,4 +132,21 @@ func cmdAccept(f []string) string {
 		return "DFAERR " + errLines(err)
 	}
 	return specStr(s)
+}
+
+func init() { commands["ebnfast"] = cmdEbnfAst }
+
+// ebnfast <hex text>: the typed-tree entry point (ebnf/parser/ast.Parse): outcome only
+func cmdEbnfAst(f []string) string {
+	g, err := ebnfast.Parse("f", strings.NewReader(unhx(f[0])))
+	if err != nil {
+		if g != nil {
+			return "ERR+VALUE " + errLines(err)
+		}
+		return "ERR " + errLines(err)
+	}
+	if g == nil {
+		return "NILNIL"
+	}
+	return "OK"
 }
